@@ -77,6 +77,14 @@ theorem parent_lt_size {d : Doc} {i p : Nat} (h : d.parent i = some p) : i < d.s
       exact this
     · cases h
 
+/-- In the DOM a namespace declaration is an attribute node named `xmlns` or `xmlns:prefix`
+(`DOMServices::isNamespaceDeclaration`); in the XPath data model it is a namespace node, not an attribute.  The node
+tables the harness produces do not number them; a table that lists one (kind `attr`, such a name) models the raw DOM
+attribute that e.g. `KeyTable` offers to the matcher. -/
+def isNsDeclName (s : String) : Bool := s == "xmlns" || s.toList.take 6 == "xmlns:".toList
+
+def isNsDecl (d : Doc) (m : Nat) : Bool := d.kind m == .attr && isNsDeclName (d.name m)
+
 /-- child axis of `p` in document order (`getFirstChild` / `getNextSibling`) -/
 def children (d : Doc) (p : Nat) : List Nat :=
   (List.range d.size).filter fun c => d.parent c = some p && d.kind c != .attr
